@@ -17,6 +17,11 @@ CLAIMED['C02'] = dict(design='2/C02', text='Every Add/Sub/Mul/Neg impl body that
     'iterators yield sorted ids summing to the polynomial.',
     note='R-model; coefficient domain 0 or magnitude in [2^-10,2^10] (positive only for the larger operand pairs, recorded per harness); '
     'quadratic operands without duplicate positions; Function operands with the oneof set; library models trusted and validated natively each run.')
+CLAIMED['C05'] = dict(design='2/C05', text='Instance::evaluate (check_bound, get_bounds, constraint/removed-constraint evaluation, is_feasible, eval_dependencies, '
+    'nearest_to_zero fill) is executed symbolically end to end on instance skeletons (<=3 variables of every kind and bound shape, <=2 active + <=2 removed '
+    'constraints, dependencies, fixed values); state values, coefficients, constants and bound endpoints are symbolic, so values on either side of the 1e-6 and '
+    '1e-7 tolerances are solver cases. z3 proves every Solution field equals the driver-computed expectation and that rejection happens exactly when required.',
+    note='R-model; valid instances only; skeleton sizes as listed in evidence; library models trusted and validated natively each run.')
 NOT_APPLICABLE = {
     'C20': 'artifact round-trip lives in ocipkg/tar/sha2/serde_json/chrono and the file system: none of it is in the crate MIR and all of it is foreign/IO under Kani; a model would verify the model, not the code',
 }
